@@ -65,7 +65,7 @@ def _(matched: ListOf(Ref("Fragment"))) -> Tup(REAL, REAL):
 
 
 # ----------------------------------------------------------------------------- cancel
-@contract("flumine/simulation/simulatedorder.py::SimulatedOrder.cancel", tags=["C04", "C02"])
+@contract("flumine/simulation/simulatedorder.py::SimulatedOrder.cancel", tags=["C04", "C02", "C03"])  # C03: the simulated handlers rely on SUCCESS for a LIMIT order on an open market (a completed order is not re-opened by a late cancel)
 def _(self, market_book: Ref("MarketBook")) -> Ref("SimulatedCancelResponse"):
     requires("inv4", implies(is_limit_so(self), Inv4(self)))
     requires("reduction_on_grid", implies(self.order.update_data["size_reduction"] is not None,
